@@ -64,20 +64,18 @@ func InitGenesis(ctx sdk.Context, k Keeper, state *types.GenesisState) {
 	}
 	for i := 0; i < len(state.BatchConfirms); i++ {
 		confirm := state.BatchConfirms[i]
-		for _, oracle := range state.Oracles {
-			if confirm.BridgerAddress == oracle.BridgerAddress {
-				// 0x22
-				k.SetBatchConfirm(ctx, oracle.GetOracle(), &confirm)
-			}
+		// a confirmation belongs to the oracle whose external key signed it
+		if oracleAddr, found := k.GetOracleAddrByExternalAddr(ctx, confirm.ExternalAddress); found {
+			// 0x22
+			k.SetBatchConfirm(ctx, oracleAddr, &confirm)
 		}
 	}
 	for i := 0; i < len(state.OracleSetConfirms); i++ {
 		confirm := state.OracleSetConfirms[i]
-		for _, oracle := range state.Oracles {
-			if confirm.BridgerAddress == oracle.BridgerAddress {
-				// 0x16
-				k.SetOracleSetConfirm(ctx, oracle.GetOracle(), &confirm)
-			}
+		// a confirmation belongs to the oracle whose external key signed it
+		if oracleAddr, found := k.GetOracleAddrByExternalAddr(ctx, confirm.ExternalAddress); found {
+			// 0x16
+			k.SetOracleSetConfirm(ctx, oracleAddr, &confirm)
 		}
 	}
 
